@@ -37,6 +37,10 @@ var (
 
 func run(pass *analysis.Pass) (any, error) {
 	for node, m := range code.Matches(pass, checkTimeSinceQ) {
+		if !code.PackageNameResolves(pass, node.Pos(), "time", "time") {
+			report.Report(pass, node, "should use time.Since instead of time.Now().Sub", report.FilterGenerated())
+			continue
+		}
 		edits := code.EditMatch(pass, node, m, checkTimeSinceR)
 		report.Report(pass, node, "should use time.Since instead of time.Now().Sub",
 			report.FilterGenerated(),
